@@ -40,5 +40,19 @@ package dns
 // RFC 3597 generic form: the length printed after \# is the number of RDATA octets (half the hex digits)
 //@ func (*RFC3597).String [C05]
 //@   exit rdlen: callarg("Itoa", 0) == len(rr.Rdata) / 2
+// presentation width of one octet inside a quoted string: backslash and quote take two characters, other
+// printable octets one, everything else the four characters of \DDD
+//@ spec txtw(b int) int = (b == 34 || b == 92) ? 2 : ((b < 32 || b > 126) ? 4 : 1)
 //@ func writeTXTStringByte [C05]
-//@   modifies H.strings.Builder.addr.v@s H.strings.Builder.buf.cap@s H.strings.Builder.buf.len@s H.strings.Builder.buf.off@s H.strings.Builder.buf.ref@s
+//@   requires s != nil
+//@   ensures width: ghost(s, "len") == old(ghost(s, "len")) + txtw(b)
+//@   modifies H.strings.Builder.addr.v@s H.strings.Builder.buf.cap@s H.strings.Builder.buf.len@s H.strings.Builder.buf.off@s H.strings.Builder.buf.ref@s G.strings.Builder.len@s
+
+// generic SVCB parameter values: the four octets " ; space and backslash are escaped with a backslash, other
+// printable octets are written as they are, everything else as \DDD
+//@ spec svcw(b int) int = (b == 34 || b == 59 || b == 32 || b == 92) ? 2 : ((b < 32 || b > 126) ? 4 : 1)
+//@ spec svcsum(s seq, n int) int = n <= 0 ? 0 : svcsum(s, n - 1) + svcw(s[n-1]) decreases n
+//@ func svcbParamToStr [C05]
+//@   assume at "str.Grow(4 * len(s))" empty: ghost(str, "len") == 0
+//@   ensures width: len(ret0) == svcsum(s, len(s))
+//@   loop 1 invariant ghost(str, "len") == svcsum(s, rangeindex + 1) && -1 <= rangeindex && rangeindex < len(s)
